@@ -134,6 +134,14 @@ NEEDS = {
     "C18i": "one REGISTER carrying two or more names new to the registry: dict.fromkeys gives them ONE shared server table",
     "C19i": "a received packet whose payload ends in 0x0a: terminator removed with rstrip, payload newlines are eaten with it",
     "C20i": "download from a peer whose filesystem is not the local one: the 'is it a regular file' test on the REMOTE path runs on the local side; files are skipped silently",
+    "C01j": "receiver with instantiate_custom_exceptions on, two exception classes with the same bare name in different modules arriving one after the other: cache of rebuilt classes keyed by __name__ - the second is rebuilt as a subclass of the first",
+    "C06j": "an object whose _rpyc_getattr/_rpyc_setattr/_rpyc_delattr hook is INHERITED (every Service subclass): hooks looked up in the exact class's __dict__ only, the connection's configuration decides instead",
+    "C07j": "one non-empty caller-owned config dict handed to a classic-mode connection and to another connection: ChainMap(config, DEFAULT_CONFIG) sends the classic service's blanket permissions into the caller's dict (same family as C06e)",
+    "C08j": "an asynchronous request whose handle is dropped after add_callback (or whose callback was given to the connection directly): pending callbacks held in a WeakValueDictionary - the reply finds nothing and is discarded",
+    "C09j": "StopIteration whose first argument is falsy (a generator returning 0 / '' / False): the bare-StopIteration short form chosen by `not value` instead of `not args`",
+    "C11j": "PipeStream on a poll(2) platform, the peer's end disappearing while this side is idle: Stream.poll ignores wake-ups that carry only hang-up/error flags - the end of the stream is never met, the side never closes",
+    "C14j": "callback registered after the request is on the wire (fourth independent appearance of the round-1 C08/C13 mechanism)",
+    "C17j": "ThreadedServer, a client that resets while in the backlog: getpeername() hoisted out of the try/finally - the serving thread dies before the cleanup, socket and table entry stay",
     "C18b": "register, advance the clock, re-register, advance: setdefault never refreshes the time stamp, live server pruned / wrong order",
 }
 
